@@ -15,12 +15,13 @@ static inline void vfh_mpz(mpz_ptr r, long lo, long hi) { mpz_set_si(r, vfh_rang
 #ifndef H_MAXDRAWS
 #define H_MAXDRAWS 6
 #endif
-static unsigned vfh_draws = 0;
+static unsigned vfh_draws = 0; static unsigned long vfh_lastcoin = 0;
 static inline void vfh_coin_mod(mpz_ptr r, mpz_srcptr m) {
   vf_assume(++vfh_draws <= H_MAXDRAWS);
   unsigned long mm = mpz_get_ui(m);
   vf_assume(mpz_sgn(m) > 0);
-  mpz_set_ui(r, vf_nondet_below(mm));
+  vfh_lastcoin = vf_nondet_below(mm);
+  mpz_set_ui(r, vfh_lastcoin);
 }
 static inline void vfh_coin_bits(mpz_ptr r, unsigned long bits) {
   vf_assume(++vfh_draws <= H_MAXDRAWS);
